@@ -13,11 +13,13 @@ CLAIMS = {
  "C01": ("trace validation: every recorded run of the bound-pattern universe against TraceCobyqa.tla (clauses C01.*: exact inclusion at every user call / callback / return, trial points inside the widened internal box at every site)", "5/C01"),
  "C02": ("trace validation: returned x is an evaluated point, fun equals its logged value, maxcv lies in the rounding band of the true violation computed from the user's statement; C02's own cross product enumerated by TLC", "5/C02"),
  "C03": ("exhaustive model check of Filter.tla (all histories of (f,cv) pairs over an abstract domain incl. NaN/+-inf, length <= 5, penalties, tolerances, filter sizes) + replay of every exported history into a real Problem (best_eval must select a member of the Acceptable set computed by TLC) + trace validation of real runs (C03.best)", "5/C03"),
+ "C04": ("RefProblems.tla generates the five reference families from their solution with integer data and TLC checks every optimality certificate in exact arithmetic; minimize is run with default options from starts at distance 0.1..50 and TLC decides status 0 / success / feasibility / distance to the exact minimiser", "5/C04"),
  "C05": ("design model check of the budget invariants + trace validation (nfev = number of evaluations, <= maxfev, nit <= maxiter, histories = last min(nfev,history_size) logged values)", "5/C05"),
  "C06": ("design model check of the call discipline + trace validation of every user call (inside an evaluation window, same user-space point, once per evaluation, omission rule)", "5/C06"),
  "C07": ("design model check of status legality on every exit path + trace validation of code/message/success against what the trace shows", "5/C07"),
  "C08": ("design liveness/exception mapping + trace validation over enumerated fault plans (NaN/inf/huge at index k or region, degenerate data, all-fixed/inconsistent bounds, callbacks): returns, barrier, success=>finite", "5/C08"),
  "C09": ("design model check of stop immediacy + trace validation with triggers placed at every site", "5/C09"),
+ "C12": ("InterpBook.tla (slot / recorded-value bookkeeping under Replace / ReplaceNear / Shift / Reset) model-checked by simulation and every behaviour replayed into a real Models object (n = 1..5, all admissible point numbers, 0..3 constraint models): slot tables equal, every model reproduces every recorded value; trace validation of the interpolation events of real runs", "5/C12"),
  "C13": ("exact oracle: TLC computes (Interp.tla, integer / rational arithmetic) the least-Frobenius-norm models of every poised lattice set and the symmetric-Broyden recursion over random update histories (incl. zero-residual replacements); every view of the real Quadratic / Models (value, gradient, Hessian, Hessian product, curvature, before and after a base shift, at two length scales) is compared within c*eps*cond; self-consistency clauses on real runs", "5/C13"),
  "C14": ("exact oracle: for every poised subset of the lattice, every candidate point and index, Models.determinants (one index and all indices) is compared with the ratio of two exact determinants computed by TLC (Bareiss), at three power-of-two scales with a reused Models object", "5/C14"),
  "C15": ("Subproblem.tla enumerates the degeneracy classes (gradient signs, bound patterns incl. active at the origin, Hessian kinds, constraint rows incl. duplicated / parallel / rank-deficient, radii, power-of-two scales, improve_tcg) with small-integer instances; the five real solvers are called on each and TLC decides the admissibility clauses on order keys (exact inclusion in the bounds, radius, inequalities kept, null space of the equalities)", "5/C15"),
